@@ -309,6 +309,10 @@ def main(ctx):
         for opts in ({"global_minimum_across_samplers": True}, {}):
             lu = [{"cls": first, "bs": 3}, {"cls": "ParticleSwarm", "bs": 2, "opts": opts}, {"cls": "BestBatch", "bs": 2}]
             cells.append({"cfg": {"lineup": lu, "model": "ident2", "ensemble": 1, "seed": S, "dims": 2, "loss": "minkowski", "lower": -3.3, "upper": 7.1, "precision": 0.7}, "seqs": [[3, 3, 2], [1] * 8]})
+    # larger-scope probes: ensemble 5, batch sizes 7 and 5, four samplers, ten batches
+    big = [{"cls": c, "bs": b} for c, b in zip(("Halton", "BestBatch", "RandomUniform", "ParticleSwarm"), (7, 5, 4, 3))]
+    cells.append({"cfg": {"lineup": big, "model": "ident2", "ensemble": 5, "seed": S, "dims": 3, "loss": "minkowski"}, "seqs": [[4, 3, 3], [10]]})
+    cells.append({"cfg": {"lineup": big, "model": "gauss2", "ensemble": 4, "seed": S + 1, "dims": 2, "loss": "msm", "sim_length": 40, "T": 40}, "seqs": [[5, 5]]})
     # n_jobs > 1 with the real loky back-end and a model whose run time depends on the parameter (completion order != submission order)
     for lu in (lus[0], lus[13]) if ctx.quick else (lus[0], lus[13], lus[22], lus[31]):
         for nj in (2, 4):
